@@ -47,9 +47,9 @@ P = {
  "C14": ("twin-execution PBT: same history with and without the wrapper; counters vs. model bit counts after every operation",
          "Exploration: histories over every method reachable through the wrappers (incl. omega, table-parameterised codes, copies, flush) on both endiannesses; values/bytes/positions identical to the bare stream and counters equal to the model position.",
          "Trusted: bit model + reference codecs.", "6/C14"),
- "C15": ("PBT of statistics against u128 reference totals, real encoding of best_code, split/merge algebra, multi-thread contention stress",
-         "Exploration: random multisets with boundary values, random splits and merges, observation through every interface; concurrent part is a contention stress (the harness does not own the schedule).",
-         "Trusted: reference lengths; thread schedule not controlled (stated limit).", "6/C15"),
+ "C15": ("PBT of statistics against u128 reference totals, real encoding of best_code, split/merge algebra; thread interleavings explored under a deterministic scheduler (shuttle: DFS over all interleavings of small cases, seeded random/PCT for larger) plus an OS-thread contention stress",
+         "Exploration: random multisets with boundary values, random splits and merges, observation through every interface; for the concurrent clause the library is rebuilt with the verification hook so that the wrapper's mutex is a scheduling point owned by the harness: every interleaving of small cases is enumerated by depth-first search, larger cases are sampled with seeded random and PCT schedulers; an OS-thread stress with 2..16 threads complements it.",
+         "Trusted: reference lengths; shuttle's model of interleavings (scheduling points at lock/unlock/spawn/join), which is exact for data-race-free code; the hook only swaps the mutex type.", "6/C15"),
  "C16": ("exhaustive enumeration of variants x parameters and identifiers; grammar-generated malformed strings",
          "Exploration, exhaustive over every variant x parameter 0..=64 (+large), identifiers 0..=64 (+large), all pairs for ==; malformed strings from a grammar.",
          "Trusted: structural comparison of enum values; D12.", "6/C16"),
@@ -67,6 +67,8 @@ P = {
          "Trusted: exact integer arithmetic for Kraft sums; D14.", "6/C20"),
 }
 
+import subprocess
+HOOK_COMMITS = [l.split()[0] for l in subprocess.run(["git", "-C", "/repo", "log", "--format=%H %s"], capture_output=True, text=True).stdout.splitlines() if l.split(" ", 1)[1].startswith("hook:")]
 IMPLEMENTED = json.load(open(os.path.join(V, "tools", "implemented.json")))
 
 checks = []
@@ -93,9 +95,9 @@ m = {
     "setup_cmd": "./check --setup",
     "hooks": {
         "guard": "dsi_bitstream_verif",
-        "enable": "no hooks are needed: every observation goes through the public API; checks build /repo as a path dependency (RUSTFLAGS unchanged)",
+        "enable": "RUSTFLAGS='--cfg dsi_bitstream_verif' when building harness/sched (the C15 scheduler harness, done by ./check C15); every other check builds /repo as a path dependency with the guard off",
         "baseline_off_cmd": "cd /repo && cargo test --workspace --no-fail-fast --offline",
-        "source_commits": [],
+        "source_commits": HOOK_COMMITS,
         "add_only": True,
     },
     "engines": [{
